@@ -240,6 +240,8 @@ def c12_requests(tier, built):
     """groups TLC's behaviours by (writer type, version): the observations the harness must record"""
     groups = collections.OrderedDict()
     def add(t, ver, v):
+        if vlib.any_node(t, lambda x: x["k"] == "lib" and x["s"].startswith("Rec")):
+            return      # recursive definitions: the recursion marker is legitimate there; its referent is not part of the tree
         k = (json.dumps(t, sort_keys=True), ver)
         g = groups.setdefault(k, {"t": t, "ver": ver, "vs": [], "seen": set()})
         vk = json.dumps(v, sort_keys=True)
